@@ -8,7 +8,7 @@
    Full statement wanted for every option o:  forall flag file, model_o flag file = eff flag file default_o. *)
 From Coq Require Import ZArith QArith List Bool.
 From PV Require Import Gen.DomainConst Gen.CheckConst Gen.ConfigConst Cli.Gate Cli.Config Cli.ConfigProofs
-  Cli.Discovery Cli.DiscoveryProofs.
+  Cli.Discovery Cli.DiscoveryProofs Cli.ConfigKeys Cli.ConfigKeysWiring Cli.ConfigKeysWiringProofs.
 Import ListNotations.
 Open Scope Z_scope.
 
@@ -114,6 +114,66 @@ Theorem C17_min_complexity_needs_explicit_tracking :
   exists v w, analyze_min_complexity_with false (Some v) None (Some w) <> v.
 Proof. exact min_complexity_without_tracking_refuted. Qed.
 
+(* ---- keys without a flag whose way into the analysis was repaired in the repo (generic statements: Props/C17Keys.v;
+   the instances are built from what the translator reads off the code, Cli/ConfigKeysWiring.v) ------------------------
+   SPEC  spec_ok k file o (Cli/ConfigKeys.v): key absent -> the default is in force; key present -> its value is. *)
+
+(* [clones] skip_docstrings: full, `false` included (before fix: 6cc2757 the converter never copied the key and clone
+   detection ran with false whatever the file said, the documented default true included) *)
+Theorem C17_clones_skip_docstrings : forall file,
+  spec_ok key_clones_skip_docstrings file (key_model key_clones_skip_docstrings file) = true.
+Proof. exact skip_docstrings_full. Qed.
+
+(* [clones] max_edit_distance (before fix: 5ba3d34 analyze's request carried 0, which the merge counted as given: no limit
+   was ever in force).  Full statement  forall file, spec_ok k file (key_model k file) = true  holds for every positive
+   value and for the absent key; the presence test of the loader is `> 0`, so 0 in the file still reads as absent
+   (generic: C17_key_positive_refuted) *)
+Theorem C17_clones_max_edit_distance_partial : forall v, 0 < v ->
+  spec_ok key_clones_max_edit_distance (Some v) (key_model key_clones_max_edit_distance (Some v)) = true.
+Proof. exact max_edit_distance_positive. Qed.
+
+Theorem C17_clones_max_edit_distance_default :
+  key_model key_clones_max_edit_distance None = InForce default_clones_max_edit_distance /\ default_clones_max_edit_distance = 500000.
+Proof. exact max_edit_distance_default. Qed.
+
+Theorem C17_clones_max_edit_distance_zero_is_absent :
+  key_model key_clones_max_edit_distance (Some 0) = key_model key_clones_max_edit_distance None.
+Proof. exact max_edit_distance_zero_is_absent. Qed.
+
+(* [output] format, no format flag (before fix: 853da19 the report was always HTML): json / yaml / csv / html of the file
+   are in force, without the key analyze's HTML.  "text" (index 1), the value DefaultPyscnConfig and `pyscn init` carry,
+   is no format of analyze (HTML is kept): not covered, hence _partial *)
+Theorem C17_output_format_partial : forall v, fmt_json <= v <= fmt_html ->
+  spec_ok key_output_format (Some v) (key_model key_output_format (Some v)) = true.
+Proof. exact output_format_full. Qed.
+
+Theorem C17_output_format_absent : key_model key_output_format None = InForce fmt_html.
+Proof. exact output_format_absent. Qed.
+
+(* [dead_code] enabled (before fix: 90fe013 nothing read the key, dead code detection ran whatever the file said): full as a
+   key, `false` included; with the flags: an analysis named by --select runs, --skip-deadcode skips, else the file decides *)
+Theorem C17_dead_code_enabled : forall file,
+  spec_ok key_dead_code_enabled file (key_model key_dead_code_enabled file) = true.
+Proof. exact dead_code_enabled_full. Qed.
+
+Theorem C17_dead_code_enabled_precedence : forall select skip file,
+  dead_code_runs select skip file = dead_code_runs_spec select skip file.
+Proof. exact dead_code_runs_full. Qed.
+
+(* [dead_code] detect_after_return / _break / _continue / _raise / detect_unreachable_branches: a kind of finding is
+   reported exactly when its switch is on (before fix: 5b73f6c the switches were echoed but never consulted) *)
+Theorem C17_dead_code_detect_switches : forall d findings, reported d findings = filter (switch_of d) findings.
+Proof. exact reported_spec. Qed.
+
+Theorem C17_dead_code_detect_switches_iff : forall d findings r,
+  In r (reported d findings) <-> In r findings /\ switch_of d r = true.
+Proof. exact reported_iff. Qed.
+
+(* the include / exclude patterns analyze falls back to without a configuration file are the defaults a configuration
+   file comes with (before fix: 587b6d8 the fallback had an extra "*.pyi") *)
+Theorem C17_patterns_same_with_and_without_file : fallback_patterns = config_default_patterns.
+Proof. exact fallback_patterns_are_config_defaults. Qed.
+
 (* ---- which file ---------------------------------------------------------------------------------------------- *)
 Theorem explicit_config_wins : forall id target cwd, resolve (ExFile id) target cwd = SExplicit id.
 Proof. exact explicit_file_wins. Qed.
@@ -190,6 +250,17 @@ Print Assumptions C17_min_severity_needs_explicit_tracking.
 Print Assumptions C17_min_cbo_needs_explicit_tracking.
 Print Assumptions C17_clone_threshold_needs_explicit_tracking.
 Print Assumptions C17_min_complexity_needs_explicit_tracking.
+Print Assumptions C17_clones_skip_docstrings.
+Print Assumptions C17_clones_max_edit_distance_partial.
+Print Assumptions C17_clones_max_edit_distance_default.
+Print Assumptions C17_clones_max_edit_distance_zero_is_absent.
+Print Assumptions C17_output_format_partial.
+Print Assumptions C17_output_format_absent.
+Print Assumptions C17_dead_code_enabled.
+Print Assumptions C17_dead_code_enabled_precedence.
+Print Assumptions C17_dead_code_detect_switches.
+Print Assumptions C17_dead_code_detect_switches_iff.
+Print Assumptions C17_patterns_same_with_and_without_file.
 Print Assumptions explicit_config_wins.
 Print Assumptions explicit_config_missing_is_an_error.
 Print Assumptions pyscn_over_pyproject_same_dir.
